@@ -345,7 +345,11 @@ def gen_metrics(rnd, n_einsums=None, force=None):
         if len(tm) > 1 and rnd.random() < 0.35:
             rnd.shuffle(tm)
             ei["time_shuffled"] = tm != ei["time"]
-        st[ei["out"]] = {"space": ei["space"], "time": tm}
+        sp = list(ei["space"])
+        if len(sp) > 1 and rnd.random() < 0.35:
+            rnd.shuffle(sp)
+            ei["space_shuffled"] = sp != ei["space"]
+        st[ei["out"]] = {"space": sp, "time": tm}
     extra = "\n".join(arch_lines + b_lines + fmt_lines) + "\n"
     tags = ["metrics", "m-einsums%d" % n, "m-configs%d" % nconf]
     if any("lf_leader_not_first" in ei for ei in einfo):
@@ -358,6 +362,8 @@ def gen_metrics(rnd, n_einsums=None, force=None):
         tags.append("m-input-read-by-two-einsums")
     if any(ei.get("time_shuffled") for ei in einfo):
         tags.append("m-time-list-not-in-loop-order")
+    if any(ei.get("space_shuffled") for ei in einfo):
+        tags.append("m-space-list-not-in-loop-order")
     if any(ei.get("bare") for ei in einfo):
         tags.append("m-einsum-with-no-timed-component")
     if any("same_rank_intersector" in ei for ei in einfo):
